@@ -94,7 +94,7 @@ def run(rep):
             rep.violation('two consecutive to_string() calls differ (scenario seed %d): %s' % (t['seed'], t['log'][:2]), {'scenario_seed': t['seed'], 'log': t['log']})
         if not t['inside']:
             rep.violation('a subtree serialises differently alone and inside its parent (scenario seed %d)' % t['seed'], {'scenario_seed': t['seed']})
-    n_nested = 0
+    n_nested = n_mixed = 0
     for node, t in zip(nested, out.get('nested', [])):
         if 'skip' in t:
             continue
@@ -104,7 +104,13 @@ def run(rep):
         elif not (t['inside1'] and t['inside2'] and t['stable']):
             rep.violation('<%s> (children supplied in shuffled order) serialises differently alone and inside unchecked ancestors' % node['tag'],
                           {'document_built': node, 'alone': t.get('alone'), 'inside': t.get('in'), 'flags': {k: t[k] for k in ('inside1', 'inside2', 'stable')}})
+        if 'mixed' in t:
+            n_mixed += 1
+            if not t['mixed'][2]:
+                rep.violation('<%s> with children and the accepted text %r: a standard parser finds the text %r in to_string()' % (node['tag'], t['mixed'][0], t['mixed'][1]),
+                              {'document_built': node, 'text_assigned': t['mixed'][0], 'text_recovered': t['mixed'][1]})
     rep.coverage['nested_under_unchecked'] = n_nested
+    rep.coverage['text_on_elements_with_children'] = n_mixed
     rep.coverage.update({'evaluations': len(strings) * 2 + len(out['twins']), 'distinct_nontrivial': len({tuple(s) for s in strings if any(c in (38, 60, 62, 34, 9, 10) or c > 127 for c in s)}) + len(out['twins']),
                          'traces_validated_against_impl': len(strings) * 2, 'strings': len(strings), 'twin_scenarios': len(out['twins']),
                          'rule': 'random strings over the XML Char range without CR (25% markup / quote / white-space characters, BMP and non-BMP) in a text and an attribute position; '
